@@ -60,6 +60,22 @@ type responseWriter struct {
 	header      http.Header
 	wroteHeader bool
 	chunkWriter io.WriteCloser
+	// noBody: the response cannot have a body (reply to HEAD, status 1xx/204/304): body bytes are
+	// not transmitted, whatever the handler writes and whatever length headers it has set.
+	noBody bool
+}
+
+// bodyAllowed reports whether a response to the request method with the status may carry a body.
+func bodyAllowed(method string, statusCode int) bool {
+	switch {
+	case http.MethodHead == method:
+		return false
+	case statusCode >= 100 && statusCode <= 199:
+		return false
+	case http.StatusNoContent == statusCode, http.StatusNotModified == statusCode:
+		return false
+	}
+	return true
 }
 
 func (r *responseWriter) Request() *http.Request {
@@ -86,7 +102,8 @@ func (r *responseWriter) WriteHeader(statusCode int) {
 		}
 		fmt.Fprint(r.writer, "\r\n")
 
-		if r.Header().Get("Transfer-Encoding") == "chunked" {
+		r.noBody = !bodyAllowed(r.request.Method, statusCode)
+		if !r.noBody && r.Header().Get("Transfer-Encoding") == "chunked" {
 			r.chunkWriter = httputil.NewChunkedWriter(r.writer)
 		}
 	}
@@ -95,6 +112,11 @@ func (r *responseWriter) WriteHeader(statusCode int) {
 func (r *responseWriter) Write(b []byte) (int, error) {
 	if !r.wroteHeader {
 		r.WriteHeader(http.StatusOK)
+	}
+
+	if r.noBody {
+		// like net/http for HEAD: the bytes count as written, nothing is sent.
+		return len(b), nil
 	}
 
 	if r.chunkWriter != nil {
@@ -153,6 +175,11 @@ func (r *responseWriter) Close() (err error) {
 func (r *responseWriter) shouldClose() bool {
 	if r.request.Close {
 		return true
+	}
+
+	if r.noBody {
+		// ends with its header block.
+		return false
 	}
 
 	header := r.Header()
